@@ -138,6 +138,22 @@ def queries(quick):
                f'select array_agg({{ {a}, {b} }})',
                f'select User {{ e := {{ {a}, {b} }} }}',
                f'select User {{ e := [{a}, {b}] }}']
+        # common type of two collections of the same shape (named tuples with
+        # the same element names, plain tuples, arrays, nested)
+        for l, r in ((f'(a := {a})', f'(a := {b})'),
+                     (f'(a := {a}, b := {b})', f'(a := {b}, b := {a})'),
+                     (f'({a},)', f'({b},)'),
+                     (f'({a}, {b})', f'({b}, {a})'),
+                     (f'[{a}]', f'[{b}]'),
+                     (f'[(a := {a})]', f'[(a := {b})]'),
+                     (f'((a := {a}), 1)', f'((a := {b}), 1)'),
+                     (f'(t := (a := {a}))', f'(t := (a := {b}))'),
+                     (f'(a := [{a}])', f'(a := [{b}])')):
+            qs += [f'select {{ {l}, {r} }}', f'select {l} union {r}',
+                   f'select {l} if false else {r}', f'select {l} ?? {r}',
+                   f'select [{l}, {r}]', f'select [{l}] ++ [{r}]',
+                   f'select array_unpack([{l}, {r}])',
+                   f'select User {{ e := {{ {l}, {r} }} }}']
     num = [x for k in ('int64', 'int32', 'int16', 'float64', 'float32',
                        'small', 'tiny') for x in ATOMS[k][:1]] + ['5', '2.5']
     triples = list(itertools.product(num, repeat=3))
